@@ -43,6 +43,7 @@ def exec (st : State) (toks : List String) : State × List String :=
           | .list => (seqElems ops o).length
           | .text => ((seqRegs ops o).map (fun (p : OpId × List Op) => match p.2.getLast? with | some x => opWidth st.enc true x | none => 0)).foldl (· + ·) 0
         (st, [s!"ok {len} {showObj ops (ops.length + 1) o ty}"])
+  | ["crdt.x.mutload", _r, _n, _seed] => (st, ["skip"])
   | _ => (st, ["unknown-cmd"])
 
 end Driver.CrdtX
